@@ -6,7 +6,8 @@ class C38(Spec):
     drv = "drv_c38"
     harness = "h_c38"
     required_theorems = ("C38.full_statement", "C38.guarded_secret_needs_unlock", "C38.sign_with_stored_key_needs_unlock",
-                         "C38.sign_locked_never_uses_stored_key", "C38.password_change_never_touches_flag",
+                         "C38.sign_locked_never_uses_stored_key", "C38.ticket_path_needs_unlock_or_ticket_mode",
+                         "C38.ticket_mode_does_not_open_requests", "C38.password_change_never_touches_flag",
                          "C38.unlocked_needs_unlock_without_password_change", "C38.window_excludes_guarded", "C38.lock_locks",
                          "C38.unlock_wrong_password_no_change", "C38.guarded_locked",
                          "C38.regression_old_transient_unlock", "C38.regression_old_lost_lock",
@@ -29,7 +30,11 @@ class C38(Spec):
                   "with a password change, and concurrent generated request mixes (every 'unlocked' observation / returned key must "
                   "be explained in real time by a successful unlock not followed by a completed lock), predicate evaluated on the "
                   "implementation.")
-    level_note = ("A wallet with a saved seed is modelled. sync.Mutex, sync/atomic and time.AfterFunc are taken as specified by Go. "
+    level_note = ("A wallet with a saved seed is modelled. No time is modelled: 'before the unlock timeout' means 'before the timer "
+                  "callback fires' (label timer, enabled iff a timer is armed); that it fires after Timeout seconds is runtime "
+                  "behaviour, exercised with the real 1 s timer by the harness. Which handlers count as `guarded` is a harness "
+                  "fact (ten request types through the message loop), not a Lean fact; the regression_old_* theorems are "
+                  "kernel-evaluated literal traces about older variants. sync.Mutex, sync/atomic and time.AfterFunc are taken as specified by Go. "
                   "The check found two defects in the code before fd9f097 (transient unlock during a password change, also with a "
                   "wrong old password; a Lock/timeout between the load and the CAS of the temporary unlock was lost and the wallet "
                   "stayed unlocked), reproduced both on the real wallet, and they were repaired in /repo; the theorems named "
@@ -38,7 +43,8 @@ class C38(Spec):
                   "design and is outside the property.")
     assumptions = ("the wallet has a saved seed (otherwise Lock/Unlock never touch the flag)",
                    "Go's sync.Mutex / sync/atomic / time.AfterFunc behave as specified",
-                   "wallet plugins (policies) do not write the flag themselves")
+                   "wallet plugins (policies) do not write the flag themselves",
+                   "a mining plugin's mineStatusReporter reports 'ticket unlocked' only after a ticket unlock with the correct password (ticket mode is a declared exception of the locked-wallet clause)")
     quick_timeout = 900
 
 
